@@ -16,7 +16,8 @@
 (*   "fault" C15  calls during which an allocation failed: correct result or Broken+FALSE *)
 EXTENDS Region, TraceIO
 
-CONSTANT CHECKS
+CONSTANTS CHECKS,        \* which property's conjuncts are judged
+          Deviations     \* ids of known findings (named deviation actions) that are tolerated and reported
 
 VARIABLE l
 
@@ -33,6 +34,7 @@ ObsState(ev) == [v \in Vars |-> ObsVal(ev.st[v])]
 AlgebraOps == {"union", "intersect", "subtract", "inverse", "union_rect", "intersect_rect", "copy",
                "reset", "clear", "init_rects", "init_rect", "init", "init_with_extents", "conv"}
 MoveOps == {"translate", "from_image"}
+VoidOps == {"translate", "from_image", "reset", "clear", "init", "init_rect", "init_with_extents"}
 
 (* the specification's result of the call described by event ev, as a next-state relation on reg *)
 Apply(ev) ==
@@ -85,12 +87,26 @@ TOp ==
        \* ... which, where judged, must be what the specification requires (Apply is evaluated
        \* with reg' already fixed, i.e. as a comparison), every other variable unchanged
        /\ IF judged THEN ev.ret /\ Apply(ev) ELSE TRUE
-       /\ IF faulty /\ "fault" \in CHECKS
-          THEN \/ ev.ret /\ Apply(ev)                                    \* completed correctly
-               \/ ~ev.ret /\ obs = [reg EXCEPT ![ev.d] = Broken]         \* reported; result is the broken region
+       /\ IF "fault" \in CHECKS
+          THEN IF faulty
+               THEN \/ ev.ret /\ Apply(ev)                                 \* completed correctly
+                    \* reported (functions returning void cannot report); result is the broken region
+                    \/ (~ev.ret \/ ev.op \in VoidOps) /\ obs = [reg EXCEPT ![ev.d] = Broken]
+                    \* known finding C15-conv-nomem-dst-untouched: a 16<->32 conversion that cannot allocate its
+                    \* temporary array reports failure but leaves the destination as it was
+                    \/ /\ ev.op = "conv" /\ ~ev.ret /\ obs = reg
+                       /\ "C15-conv-nomem-dst-untouched" \in Deviations
+                       /\ Deviation("C15-conv-nomem-dst-untouched", l)
+               ELSE \* no failure inside this call: the specification's result, broken operands propagate
+                    \/ Apply(ev) /\ (ev.ret \/ \E v \in {ev.d, ev.a, ev.b} \ {0} : reg[v].b)
+                    \* known finding C15-conv-drops-broken: converting a broken region yields an empty one
+                    \/ /\ ev.op = "conv" /\ reg[ev.a].b /\ ev.ret /\ obs = [reg EXCEPT ![ev.d] = Empty]
+                       /\ "C15-conv-drops-broken" \in Deviations
+                       /\ Deviation("C15-conv-drops-broken", l)
           ELSE TRUE
-       /\ ("canon" \in CHECKS) => \A v \in Vars : CanonOK(ev.st[v])
-       /\ ("query" \in CHECKS /\ ~faulty) => \A v \in Vars : DescribeOK(ev.st[v], obs[v])
+       \* "= TRUE": evaluated as state predicates (in action mode TLC splits disjunctions under quantifiers)
+       /\ (("canon" \in CHECKS) => \A v \in Vars : CanonOK(ev.st[v])) = TRUE
+       /\ (("query" \in CHECKS /\ ~faulty) => \A v \in Vars : DescribeOK(ev.st[v], obs[v])) = TRUE
        \* Broken appears only through an allocation failure or a broken operand
        /\ (~faulty /\ ~(\E v \in Vars : reg[v].b)) => ~(\E v \in Vars : obs[v].b)
     /\ l' = l + 1
